@@ -181,7 +181,21 @@ def c16(tier, seed):
     return [run(c, "rel", "c16") for c in cfgs] + [run("d", "dbg", "c16", tag="dbg"), run("crf", "dbg", "c16", tag="dbg")]
 
 
+def c18(tier, seed):
+    cfgs = ["d", "p", "r", "f", "rf"] if tier == "quick" else ["d", "c", "p", "r", "f", "cf", "pf", "rf", "crf", "nd", "nrf"]
+    runs = [run(c, "rel", "c18") for c in cfgs]
+    runs += [run("rf", "dbg", "c18", tag="dbg"), run("d", "dbg", "c18", tag="dbg")]
+    # parsing with INVALID formats (every entry point must return a configuration error): format-table executor
+    runs.append(run("rf", "rel", "px_i0", ["prop=C18"], tag="C18"))
+    runs.append(run("rf", "dbg", "px_i0", ["prop=C18"], tag="C18dbg"))
+    if tier == "thorough":
+        runs.append(run("crf", "rel", "px_i0", ["prop=C18"], tag="C18"))
+        runs.append(run("f", "rel", "px_i0", ["prop=C18"], tag="C18"))
+    return runs
+
+
 PLANS = {
+    "C18": c18,
     "C16": c16,
     "C08": c08,
     "C09": c09,
@@ -316,6 +330,24 @@ META = {
         "distinct_nontrivial = events whose result is an error, or whose input has > 19 bytes, plus all write events, in ONE configuration (the workload is the same in all).",
         "assumptions": ["the build whose digest is in the minority is named as the deviating one (majority attribution); panics are compared as 'Panic' without the message"],
     },
+    "C18": {
+        "rule": "A. run-time sweep of format descriptions through the documented builder setters: ALL 2^18 syntax-flag words, ALL 2^13 separator-flag words x {separator set, unset} (exhaustive), all 256 byte values for each of "
+        "digit separator / base prefix / base suffix (in radix 2, 10, 16, 36 contexts) and for mantissa radix / exponent base / exponent radix, pairs of punctuation characters over a 31-character set, every radix 0..40 x every ASCII "
+        "character, and 400k (thorough 4M) seeded joint samples over all fields; judged: NumberFormatBuilder::rebuild(fmt).build_strict() panics exactly when the documented constraints (reference predicate, per feature set) are "
+        "violated, rebuild is semantically faithful, all 37 builder getters reflect their setters. B. 512 compile-time table formats + all 147 prebuilt formats: format_is_valid == (format_error == Success) == build_strict verdict == "
+        "reference, NumberFormat getters give the description back, every prebuilt format valid. C. 60k (thorough 400k) option builder states for ParseFloatOptions / WriteFloatOptions / ParseIntegerOptions (every byte value for "
+        "exponent and decimal point, special strings of length 0, 1, 50, 51, wrong first letter, non-letters at each position, None combinations, infinity shorter than inf, min > max digits, breaks of the wrong sign): "
+        "is_valid() == build().is_ok() == documented constraints, getters reflect setters, rebuild round trip. D. 12 valid formats (radices, mixed base, separators, prefix/suffix) x (decimal point, exponent) pairs over 0..128 x "
+        "5 inputs x {f64, f32} x {complete, partial}: a configuration error exactly when the punctuation clashes with the format (digit of a radix of the format, sign, equal characters, separator/prefix/suffix). "
+        "E. (format-table executor px_i0) 64 invalid compile-time formats x 310 inputs x {f64, i64} x {complete, partial}: always a configuration error, never a value, an input error or a panic. "
+        "distinct_nontrivial = invalid descriptions + invalid option states + clashing punctuation pairs + invalid-format parses.",
+        "assumptions": [
+            "a digit separator character set without any separator flag is not packed by build_unchecked; such descriptions are judged without the separator",
+            "rebuild fidelity is semantic: an exponent base / exponent radix of 0 means 'same as the mantissa radix'",
+            "control characters below 0x20 (other than 0x09-0x0D) and DEL in FORMAT punctuation, and DEL in options punctuation, are not settled by the documentation: either verdict accepted (counter c18.unsure)",
+            "which error is reported for an invalid format is not judged, only valid/invalid",
+        ],
+    },
     "C10": {
         "rule": PX_RULE + " Judged: no panic (release and debug-assertion builds), no guard-page hit, partial count <= len, error index <= len.",
         "assumptions": ["a guard page catches out-of-slice access only within one page of the slice; intra-allocation misuse is left to Miri (thorough tier)"],
@@ -407,5 +439,5 @@ def replay_auto(body):
     return replay_wx(body) if body["run"]["bin"].startswith("wx_") else replay_px(body)
 
 
-REPLAY = {"C16": (lambda body: ["dump=" + body["case"]["chunk"]]), "C08": replay_wx, "C09": replay_wx, "C14": replay_wx, "C17": replay_wx, "C10": replay_px, "C11": replay_px, "C12": replay_px, "C13": replay_px, "C15": replay_auto, "C06": replay_c06, "C07": replay_c06, "C05": replay_c05, "C04": replay_c04, "C01": replay_input, "C02": replay_bits, "C03": replay_c03}
+REPLAY = {"C18": replay_px, "C16": (lambda body: ["dump=" + body["case"]["chunk"]]), "C08": replay_wx, "C09": replay_wx, "C14": replay_wx, "C17": replay_wx, "C10": replay_px, "C11": replay_px, "C12": replay_px, "C13": replay_px, "C15": replay_auto, "C06": replay_c06, "C07": replay_c06, "C05": replay_c05, "C04": replay_c04, "C01": replay_input, "C02": replay_bits, "C03": replay_c03}
 POST = {}
